@@ -458,6 +458,8 @@ def check_witness(match, pattern_text, student_root, problems):
             if va is None and not isinstance(a, ast.Constant):
                 continue        # an optional part the pattern leaves out (except X: without a name, def without returns)
             vb = pb.get(f)
+            if isinstance(a, (ast.Global, ast.Nonlocal)) and f == 'names' and isinstance(va, tuple) and isinstance(vb, tuple) and vb[:len(va)] == va:
+                continue        # a list of names is matched like the other lists: the student's statement may name more (never fewer)
             if type(va) is not type(vb) or va != vb:
                 problems.append(('content-differs', '%s.%s: pattern %r, student %r' % (type(a).__name__, f, va, vb)))
     # ---- structure: children are children of the partner, in order ----------------------------------------------
